@@ -11,6 +11,9 @@ WATCHDOG_S = {"quick": 900, "thorough": 7200}
 FLOORS = (10000, 1000)
 K = 16.0  # multiple of the running error scale that is accepted (max observed on the pinned table: 2.8)
 
+import decimal
+import warnings
+
 
 def _vals(ctx):
     r = ctx.rng("values")
@@ -252,6 +255,22 @@ def run(ctx):
                         break
                     if repr(warm) != repr(cold):
                         ctx.violation("%s:%s:%s->%s:depends-on-history" % (kind, qt, u, v), {"after_the_sweep": repr(warm), "on_a_fresh_database": repr(cold), "x": x, "db": kind}, replay={"kind": kind, "qt": qt, "u": u, "v": v, "x": x})
+                        break
+                    # ... nor on settings of the thread that are none of a conversion's business: the decimal context
+                    # (a caller doing money arithmetic with five digits) and the warnings filter
+                    ctx.ev()
+                    try:
+                        with decimal.localcontext() as dc, warnings.catch_warnings():
+                            dc.prec = 5
+                            dc.rounding = decimal.ROUND_DOWN
+                            warnings.simplefilter("error")
+                            amb = db.Convert(qt, u, v, x)
+                            amb_l = db.Convert(qt, u, v, [x])[0]
+                    except Exception as e:
+                        ctx.violation("%s:%s:%s->%s:raised-under-a-five-digit-decimal-context" % (kind, qt, u, v), {"error": repr(e)[:200], "x": x, "db": kind}, replay={"kind": kind, "qt": qt, "u": u, "v": v, "x": x})
+                        break
+                    if repr(amb) != repr(warm) or repr(amb_l) != repr(warm):
+                        ctx.violation("%s:%s:%s->%s:depends-on-the-thread's-decimal-context" % (kind, qt, u, v), {"default_context": repr(warm), "five_digit_context": repr(amb), "in_a_list": repr(amb_l), "x": x, "db": kind}, replay={"kind": kind, "qt": qt, "u": u, "v": v, "x": x})
                         break
             # u -> u is exact for every kind of value (no arithmetic at all may touch it)
             if ctx.shard == 0:
